@@ -92,6 +92,22 @@ CHECKS = {
         ref="DESIGN 3/C20, 2/E9"),
 }
 
+# clauses added after the independently seeded round (DESIGN 4c); appended to the claim text
+ADDED = {
+    "C02": " Also: (d) no random draw is stored under a data-dependent key and reused for several sample components.",
+    "C03": " Also: (c) in every `shots is None` arm the weights handed on are the iterated probabilities themselves (times the parent branch's weight), not a renormalised or rescaled value.",
+    "C04": " Also: no `<<` is evaluated in fewer bits than the stated multiplicity range needs with a run-time count; an in-place rescaling helper returns on every path the factor it applied on that path.",
+    "C07": " Also: every closed-form block is free of config.hbar; the S_(c) matrices printed in the class docstrings equal [[P, A], [conj A, conj P]] assembled from the blocks (LaTeX fragment reader); the steps registered for gates keep the requested mode order (no sorted image, no order-insensitive shortcut).",
+    "C09": " Also: (d) the NumPy/numba and the JAX implementation of the Gaussian density-matrix recurrence have the same normal form (pivot, initial term, loop summands, divisor).",
+    "C11": " Also: the seed of every privately constructed generator is traced to a read of the seed_sequence property; no object shared by the shots of a dask region (bound by partial, free variable of the per-shot closure) is written in place by the per-shot callable; the jobs of the native permanent tile the Gray-code range exactly for every job count (S(0)=0, E(K-1)=M-1, S(j+1)=E(j)+1, proved by case split over the comparisons).",
+    "C13": " Also: the preparation-order validator may only test isinstance(., Preparation) (closed world).",
+    "C15": " Also: (c) each Givens step of the Clements sweep nulls one element of the addressed pair for the angles _get_angles returns, symbolically for every non-zero pivot and with the degenerate arm's constants for a zero pivot.",
+    "C16": " Also: a fullness test by length, or any test over order-insensitive aggregates of the mode tuple (len/min/max/sum/set) that substitutes a value ignoring the tuple; the complement of the complement; outcome projections that run in parallel with the mode tuple.",
+    "C18": " Also: every use of an operand's raw amplitude map in __add__ is weighted by that operand's coefficient.",
+    "C19": " Also: no one-sided skip guard around emitted instructions; no sorted/set image of a gate's qubit operands.",
+    "C20": " Also: the whitelist is closed under subclassing (it is applied with isinstance) and every admitted operator class is a key of the table _eval uses; no comparator of a chained comparison is evaluated before the earlier links are tested.",
+}
+
 # properties whose check is built AND clean on the current tree (exit 0); others stay under not_applicable until then
 READY = ["C02", "C03", "C04", "C07", "C08", "C09", "C11", "C12", "C13", "C14", "C15", "C16", "C18", "C19", "C20"]
 
@@ -112,7 +128,7 @@ def main() -> None:
             "evidence_file": f"/verif/evidence/{pid}.json",
             "replay_cmd_template": f"python3-vt /verif/check {pid} --tier quick --replay {{path}}",
             "engine": "pqstatic",
-            "level_claimed": {"category": c["cat"], "text": c["text"], "design_ref": c["ref"]},
+            "level_claimed": {"category": c["cat"], "text": c["text"] + ADDED.get(pid, ""), "design_ref": c["ref"]},
             "level_note": c["note"],
             "technique": "static analysis: " + c["technique"],
         })
